@@ -162,7 +162,7 @@ func FindMaxByKey[K comparable, T constraints.Ordered](mapSlice []map[K]T, key K
 func Nth[T any](slice []T, nth int) (T, error) {
 	bounds := Bound[int]{0, len(slice)}
 
-	if (nth > 0 && nth > bounds.Max-1) ||
+	if (nth >= 0 && nth > bounds.Max-1) ||
 		(nth < 0 && bounds.Max-Abs(nth) < 0) {
 
 		var t T
